@@ -196,3 +196,30 @@ package rueidis
 //@   safety C17
 //@   modifies *m
 //@   ensures [C17 short-buffer-is-error] len(buf) < 16 ==> result != nil
+
+// ---------------------------------------------------------------------------------------------
+// C44 — Redis URLs map to the documented options (url.go). net/url, strconv and time parsing are uninterpreted
+// functions; each option field must be a function of exactly its own URL component.
+//@ func ParseURL
+//@   modifies *
+//@   let U = first(url.Parse(str))
+//@   let Q = U.Query()
+//@   loop 0: invariant [C44] len(opt.InitAddress) == rangeindex + 2 && rangeindex >= -1 && rangeindex < len(Q["addr"])
+//@   ensures [C44 write-timeout] (err == nil && Q.Has("write_timeout")) ==> opt.ConnWriteTimeout == first(time.ParseDuration(Q.Get("write_timeout")))
+//@   ensures [C44 no-write-timeout] (err == nil && !Q.Has("write_timeout")) ==> opt.ConnWriteTimeout == 0
+//@   ensures [C44 dial-timeout] (err == nil && Q.Has("dial_timeout")) ==> opt.Dialer.Timeout == first(time.ParseDuration(Q.Get("dial_timeout")))
+//@   ensures [C44 no-dial-timeout] (err == nil && !Q.Has("dial_timeout")) ==> opt.Dialer.Timeout == 0
+//@   ensures [C44 db-param] (err == nil && Q.Has("db")) ==> opt.SelectDB == first(strconv.Atoi(Q.Get("db")))
+//@   ensures [C44 protocol] err == nil ==> (opt.AlwaysRESP2 <==> Q.Get("protocol") == "2")
+//@   ensures [C44 client-cache] err == nil ==> (opt.DisableCache <==> Q.Get("client_cache") == "0")
+//@   ensures [C44 max-retries] err == nil ==> (opt.DisableRetry <==> Q.Get("max_retries") == "0")
+//@   ensures [C44 client-name] err == nil ==> opt.ClientName == Q.Get("client_name")
+//@   ensures [C44 master-set] err == nil ==> opt.Sentinel.MasterSet == Q.Get("master_set")
+//@   ensures [C44 credentials] (err == nil && U.User != nil) ==> (opt.Username == U.User.Username() && opt.Password == first(U.User.Password()))
+//@   ensures [C44 no-credentials] (err == nil && U.User == nil) ==> (opt.Username == "" && opt.Password == "")
+//@   ensures [C44 tls-iff-secure-scheme] err == nil ==> ((U.Scheme == "rediss" || U.Scheme == "valkeys") <==> opt.TLSConfig != nil)
+//@   ensures [C44 skip-verify-value] (err == nil && opt.TLSConfig != nil && Q.Has("skip_verify") && Q.Get("skip_verify") != "") ==> (opt.TLSConfig.InsecureSkipVerify <==> first(strconv.ParseBool(Q.Get("skip_verify"))))
+//@   ensures [C44 skip-verify-bare] (err == nil && opt.TLSConfig != nil && Q.Has("skip_verify") && Q.Get("skip_verify") == "") ==> opt.TLSConfig.InsecureSkipVerify
+//@   ensures [C44 no-skip-verify] (err == nil && opt.TLSConfig != nil && !Q.Has("skip_verify")) ==> !opt.TLSConfig.InsecureSkipVerify
+//@   ensures [C44 address-count] err == nil ==> len(opt.InitAddress) == 1 + len(Q["addr"])
+//@   ensures [C44 unknown-scheme-is-error] (second(url.Parse(str)) == nil && U.Scheme != "unix" && U.Scheme != "rediss" && U.Scheme != "valkeys" && U.Scheme != "redis" && U.Scheme != "valkey") ==> err != nil
